@@ -848,7 +848,7 @@ class Task:
         Setter for predecessor tasks
         :param value: new predecessors
         """
-        value = _to_list(value)
+        value = _unique_tasks(_to_list(value))
         _check_no_nones_in_list(value, 'predecessors')
 
         relatives = [self] + [t for t in self.all_parents] + [t for t in self.all_children]
@@ -894,7 +894,7 @@ class Task:
         Setter for direct successors
         :param value: new direct successors
         """
-        value = _to_list(value)
+        value = _unique_tasks(_to_list(value))
         _check_no_nones_in_list(value, 'successors')
 
         relatives = [self] + [t for t in self.all_parents] + [t for t in self.all_children]
